@@ -367,6 +367,14 @@ UNITS = [
     U('c3d_unlockGroup', 'contracts/lockgroup.c', 'h_c3d_unlockGroup', ['c3d__unlockGroup/contract_c3d__unlockGroup'], ['C09', 'C10', 'C13', 'C18'],
       replace=['Parameters__group_nonConst__str/contract_lg_Parameters__group_nonConst__str'], unwind=3, timeout=300,
       assumes=['the by-name accessor returns the group of that name or throws invalid_argument (first match: unit Parameters_groupIdx)']),
+    U('B_c3d_point_name', 'contracts/bounded_point_name.c', 'h_B_c3d_point_name', [], ['C06', 'C05', 'C13'], mode='bmc',
+      stubs={'Point__ctor__str': 'stubn_Point_ctor', 'Point__name__str': 'stubn_Point_name', 'Points__ctor__void': 'stubn_Points_ctor',
+             'Points__point__Point_sz': 'stubn_Points_append', 'Frame__ctor': 'stubn_Frame_ctor', 'Frame__add__Points': 'stubn_Frame_add',
+             'vf_vec_Frame_push_back': 'stubn_push_back', 'c3d__point__vFrame': 'stubn_column', 'c3d__updateParameters': 'stubn_update'},
+      unwind=5, timeout=600, level='B', object_bits=12, bound='at most 3 stored frames, name of at most 2 characters',
+      props={'memsafe': ['C13'], 'ub': ['C13']},
+      assumes=['plain symbolic execution of the real c3d::point(name); constructors, Points::point(p), Frame::add, push_back, the column '
+               'adder and updateParameters are recording stubs (their own units)']),
     U('Parameters_write', WR, 'h_Parameters_write', ['Parameters__write/contract_Parameters__write'],
       ['C01', 'C03', 'C13', 'C14', 'C10'], replace=['Group__write/contract_abs_Group__write'], unwind=5, loops=True, timeout=900,
       pre_unwind={'vf_stream_write.0': 5, 'Parameters__write.0': 3},
